@@ -67,6 +67,22 @@ def check(run):
         for _ in range(rng.randrange(1, 4)):
             ops += [("EH", mask()), ("R", tgt, True)] + batch(rng.randrange(1, 5))
         sessions.append(refexp.make_session({"maj": 1, "min": 0, "priv": 1}, [bp], ops, target=tgt))
+    # several parameter sets with different hints, the active set switched back and forth between blocks (set_active after a
+    # flush; a set added later is activated after a rotation): every block must apply - and be labelled with - the set in force
+    for _ in range(300 if quick else 8000):
+        pools = G.Pools(rng)
+        bps = [dict(tps=rng.choice([1000, 10**6]), max=rng.choice([1, 2, 3]), **m) for m in
+               ({"qrh": G.ALL_QRH, "sigh": G.ALL_SIGH, "rrh": 3, "odh": 3}, {"qrh": rng.randrange(2**18), "sigh": rng.randrange(2**17), "rrh": rng.randrange(4), "odh": rng.randrange(4)},
+                {"qrh": rng.randrange(2**18) | 4, "sigh": 0, "rrh": 0, "odh": rng.randrange(4)})][:rng.choice([2, 3])]
+        ops = []
+        for _ in range(rng.randrange(2, 7)):
+            ops.append(("SA", rng.randrange(len(bps))))
+            ops.append(("W",))
+            for _ in range(rng.randrange(1, 4)):
+                k = rng.random()
+                ops.append(("Q", G.gen_qr(rng, pools, full=rng.random() < 0.7, tps=1000), None) if k < 0.7 else
+                           ("A", G.gen_aec(rng, pools), None) if k < 0.85 else ("M", G.gen_mm(rng, pools, p_present=0.9, tps=1000), None))
+        sessions.append(refexp.make_session({"maj": 1, "min": 0, "priv": 1}, bps, ops))
     # single-block sessions for the block-building model (all hints random, big block)
     nb0 = len(sessions)
     for _ in range(500 if quick else 20000):
